@@ -40,6 +40,7 @@ type Harness struct {
 	StrLen        int             // string length bound of the bounded (stage B) encoding
 	StageATimeout int             // ms: limit for the unbounded SMT-string attempt
 	Havoc         map[string]bool // functions replaced by fresh results (harness-declared over-approximation)
+	Subst         map[string]string // pkg.Func -> harness function executed in its place (a model of it; natively the real function runs)
 	Ideal         bool            // replace first-party CFB cipher by its ideal model (flow harnesses)
 	Compose       bool            // compose the request traces of this harness pairwise under a symbolic scheduler
 	AbstractLen   bool            // ideal hash outputs without fixed length
@@ -314,6 +315,15 @@ func (w *World) load() error {
 								}
 								for _, f := range strings.Split(v, ",") {
 									h.Havoc[f] = true
+								}
+							case "subst": // subst=<pkg.Func>:<harness func>: calls of pkg.Func run the harness's model of it instead
+								if h.Subst == nil {
+									h.Subst = map[string]string{}
+								}
+								for _, f := range strings.Split(v, ",") {
+									if kv := strings.SplitN(f, ":", 2); len(kv) == 2 {
+										h.Subst[kv[0]] = kv[1]
+									}
 								}
 							case "unblock": // packages whose code this harness executes although blocked by default
 								h.Unblock = append(h.Unblock, strings.Split(v, ",")...)
